@@ -201,7 +201,7 @@ func runClientCache(c *Ctx) error {
 				var sre *security.SessionResumptionError
 				switch {
 				case err == nil && resumed:
-					r = fmt.Sprintf("ok resumed sid=%s keyed=%s user=%s auth=%s", neg.SessionId, b01(len(neg.GetSharedSecret()) > 0), strOrTilde(neg.User), b01(neg.Authentication))
+					r = fmt.Sprintf("ok resumed sid=%s keyed=%s user=%s auth=%s", neg.SessionId, b01(len(neg.GetSharedSecret()) > 0), tokEsc(neg.User), b01(neg.Authentication))
 					// ---- property oracle C07 ----
 					if req && !authOf[neg.SessionId] {
 						c.Violate(Violation{Property: "C03", Key: "C03:client-resumed-unauthenticated-under-required", What: "a client whose policy marks authentication REQUIRED returned success by resuming a session that was established without authentication",
@@ -247,7 +247,7 @@ func runClientCache(c *Ctx) error {
 					if len(neg.GetSharedSecret()) > 0 {
 						key = "1"
 					}
-					full = fmt.Sprintf("%s|%s|%s|%s|%s", neg.SessionId, key, strOrTilde(neg.User), b01(neg.Authentication), declared)
+					full = fmt.Sprintf("%s|%s|%s|%s|%s", neg.SessionId, key, tokEsc(neg.User), b01(neg.Authentication), declared)
 					r = "ok full sid=" + neg.SessionId
 					sids = append(sids, neg.SessionId)
 					authOf[neg.SessionId] = neg.Authentication
